@@ -186,7 +186,7 @@ class SG:
         self.budget -= 1
         depth = len(self.scopes) - 1
         simple = [(5, self.s_def), (3, self.s_read), (3, self.s_assign), (2, self.s_tuple_def), (1, self.s_tuple_assign),
-                  (1, self.s_bare_def), (2, self.s_builder)]
+                  (1, self.s_bare_def), (2, self.s_builder), (1, self.s_nested_tuple_assign)]
         compound = [(3, self.s_if), (2, self.s_match), (2, self.s_for), (1, self.s_while), (2, self.s_handle)]
         if self.self_mut is not None:
             simple.append((3, self.s_self_field))
@@ -272,7 +272,13 @@ class SG:
         if not names:
             return False
         n = self.pick(names)
-        form = self.pick(["gi(%s)", "print(%s)", "gi(%s + 1)", "if %s > 0 then print(1)"])
+        forms = ["gi(%s)", "print(%s)", "gi(%s + 1)", "if %s > 0 then print(1)"]
+        if isinstance(self.lookup("cb"), Var):
+            forms += ["gi(cb(%s))", "gi(cb(%s + 1))"]
+        form = self.pick(forms)
+        if self.chance(10):
+            self.n_fresh += 1
+            form = "def zq%d := %%s isa Int" % self.n_fresh
         self.emit(ind, form % n)
         self.features.add("read")
 
@@ -296,6 +302,16 @@ class SG:
         b = self.pick([n for n in t if n != a])
         self.emit(ind, "(%s, %s) := (%s, %s)" % (a, b, self.int_atom(), self.int_atom()))
         self.features.add("tuple_assign")
+
+    def s_nested_tuple_assign(self, ind):
+        t = self.assign_targets()
+        if len(t) < 3:
+            return False
+        order = list(self.draw(st.permutations(t)))[:3]
+        a, b, c = order
+        shape = self.pick(["(%s, (%s, %s)) := (1, (2, 3))", "((%s, %s), %s) := ((1, 2), 3)"])
+        self.emit(ind, shape % (a, b, c))
+        self.features.add("nested_tuple_assign")
 
     def s_self_field(self, ind):
         if self.self_mut and self.chance(60):
@@ -416,9 +432,10 @@ class SG:
         d = self.handle_depth
         k = self.i(0, 2)
         as_def = self.chance(30)
+        fin_def = as_def and self.chance(40)
         if as_def:
             name = self.pick(self.binder_pool())
-            self.emit(ind, "def %s := hr(%d) handle" % (name, k))
+            self.emit(ind, "def %s%s := hr(%d) handle" % ("fin " if fin_def else "", name, k))
         else:
             self.emit(ind, "hr(%d) handle" % k)
         arms = [("ea%d" % d, "HErr", "E1"), ("eb%d" % d, "HErr2", "E2")]
@@ -439,25 +456,26 @@ class SG:
             self.pop()
         self.handle_depth -= 1
         if as_def:
-            self.define(name, Var(True))
-        self.features.add("handle_def" if as_def else "handle")
+            self.define(name, Var(not fin_def))
+        self.features.add(("handle_def_fin" if fin_def else "handle_def") if as_def else "handle")
 
     # top-level items ---------------------------------------------------------------------------------
     def function(self):
         self.n_fun += 1
         f = "fn%d" % self.n_fun
         fins = [self.chance(40), self.chance(40)]
-        self.emit(0, "def %s(%s) =>" % (f, ", ".join("%s%s: Int" % ("fin " if fin else "", p) for p, fin in zip(PARAMS, fins))))
+        self.emit(0, "def %s(%s, cb: (Int) -> Int) =>" % (f, ", ".join("%s%s: Int" % ("fin " if fin else "", p) for p, fin in zip(PARAMS, fins))))
         saved = (self.fun_base, self.in_fun)
         self.push()
         self.fun_base = len(self.scopes) - 1
         self.in_fun = True
         for p, fin in zip(PARAMS, fins):
             self.define(p, Var(not fin))
+        self.define("cb", Var(True, "F", assignable=False))
         self.block(1, 2, 4)
         self.pop()
         self.fun_base, self.in_fun = saved
-        self.emit(0, "%s(%d, %d)" % (f, self.i(0, 3), self.i(0, 3)))
+        self.emit(0, "%s(%d, %d, \\cz: Int => cz + 1)" % (f, self.i(0, 3), self.i(0, 3)))
         self.features.add("function")
 
     def klass(self):
@@ -498,7 +516,11 @@ class SG:
             elif n.startswith("eb"):
                 form = "ge2(%s)"
             else:
-                form = self.pick(["gi(%s)", "gi(%s)", "print(%s)", "def zz := %s", "gi(%s + 1)", "if %s > 0 then print(1)"])
+                forms = ["gi(%s)", "gi(%s)", "print(%s)", "def zz := %s", "gi(%s + 1)", "if %s > 0 then print(1)", "def zy := %s isa Int",
+                         "def zy := (%s + 1) isa Int"]
+                if isinstance(self.lookup("cb"), Var):
+                    forms += ["gi(cb(%s))", "gi(cb(%s))", "def zx: Int := cb(%s + 1)"]
+                form = self.pick(forms)
             self.emit(ind, form % n)
             self.fault_done = {"kind": "read_undefined", "name": n, "defined_elsewhere": n in self.ever_defined,
                                "in_function": self.in_fun, "depth": len(self.scopes) - 1}
@@ -510,6 +532,8 @@ class SG:
             opts += ["fin_var"] * 3
             if self.assign_targets() or len(fin_names) > 1:
                 opts.append("fin_tuple")
+            if len(self.assign_targets()) >= 2:
+                opts += ["fin_nested_tuple"] * 2
         undefined = sorted(n for n in set(GLOBAL_POOL + FUN_POOL) | {"zq"} if self.lookup(n) is None)
         if undefined:
             opts.append("undefined")
@@ -531,6 +555,13 @@ class SG:
             m = self.pick(others)
             pair = (n, m) if self.chance(50) else (m, n)
             self.emit(ind, "(%s, %s) := (1, 2)" % pair)
+        elif k == "fin_nested_tuple":
+            n = self.pick(fin_names)
+            others = list(self.draw(st.permutations(self.assign_targets())))[:2]
+            names = others + [n]
+            names = [names[i] for i in self.draw(st.permutations([0, 1, 2]))]
+            shape = self.pick(["(%s, (%s, %s)) := (1, (2, 3))", "((%s, %s), %s) := ((1, 2), 3)"])
+            self.emit(ind, shape % tuple(names))
         elif k == "undefined":
             n = self.pick(undefined)
             self.emit(ind, "%s %s %s" % (n, op, self.int_atom()))
